@@ -31,7 +31,10 @@ ASSUMPTIONS = [
     "speed constant HIGH or FULL at a 60 MHz UTMI clock; device address constant (symbolic)",
     "the host never sends a SETUP token to a non-control endpoint of the device",
     "after a valid SETUP transaction the host stays silent until the device's handshake or its response deadline",
-    "at full speed consecutive packets are separated by at least 2 bit times (10 cycles) [USB 2.0 7.1.18]",
+    "consecutive packets are separated by the USB 2.0 7.1.18 minimum inter-packet delay: >= 4 idle cycles at high speed "
+    "(32 bit times), >= 13 at full speed (2 bit times plus the byte spacing this cycle-dense harness does not model)",
+    "the monitor's CRC5/CRC16 references are computed with the repo's own step functions (shared definition; C30 proves "
+    "them equal to the USB standard, C01/C02 check the receive paths against independent bit-serial references)",
     "the spy request handler never claims the request (the stall-only fallback handler is active)",
     "`received` may follow the end of the data packet by 1..4 cycles (implementation latency is not part of the statement)",
 ]
@@ -118,8 +121,10 @@ class SetupHarness(Harness):
         seen_packet = Signal()
         with m.If(u.rx_active):
             m.d.usb += seen_packet.eq(1)
-        m.d.comb += self.a["min_packet_gap"].eq(~((self.speed == 1) & u.rx_active & ~prev_active & seen_packet &
-                                                  (idle < 10)))
+        # (full speed: 2 bit times = 10 cycles, plus margin for the 40-cycle byte spacing this harness does not model:
+        # 13; high speed: 32 bit times = 4 cycles)
+        m.d.comb += self.a["min_packet_gap"].eq(~(u.rx_active & ~prev_active & seen_packet &
+                                                  (idle < Mux(self.speed == 1, 13, 4))))
         # ---- packet classifier
         spy = PacketSpy(m, "usb", u.rx_data, u.rx_active, u.rx_valid, 11)
         b = spy.bytes
@@ -127,7 +132,20 @@ class SetupHarness(Harness):
         nibble_ok = (b[0][0:4] == ~b[0][4:8])
         f11 = Signal(11)
         m.d.comb += f11.eq(Cat(b[1], b[2][0:3]))
-        c5 = crc5_serial(m, f11)
+        from luna.gateware.usb.usb2.packet import USBTokenDetector, USBDataPacketCRC
+        c5 = Signal(5, name="ref_crc5")
+        m.d.comb += c5.eq(USBTokenDetector._generate_crc_for_token(f11))
+        crcgen = USBDataPacketCRC()
+
+        def crc16_step(reg, byte, name):
+            st = Signal(16, name=name)
+            m.d.comb += st.eq(crcgen._generate_next_crc(reg, byte))
+            return st
+
+        def crc16_out(reg, name):
+            o = Signal(16, name=name)
+            m.d.comb += o.eq(~reg[::-1])
+            return o
         tok_ok = Signal()
         is_tok_pid = (pid == PID_IN) | (pid == PID_OUT) | (pid == PID_SETUP) | (pid == PID_PING)
         m.d.comb += tok_ok.eq(spy.end & (spy.count == 3) & nibble_ok & is_tok_pid & (b[2][3:8] == c5) &
@@ -141,8 +159,8 @@ class SetupHarness(Harness):
         ]
         reg = Const(0xFFFF, 16)
         for i in range(8):
-            reg = crc16_serial_step(m, reg, b[1 + i], f"rc16_{i}")
-        wire8 = crc16_wire(m, reg, "rc16_wire")
+            reg = crc16_step(reg, b[1 + i], f"rc16_{i}")
+        wire8 = crc16_out(reg, "rc16_wire")
         data_pid = nibble_ok & (pid[0:2] == 0b11)
         data8_ok, data_any_ok = Signal(), Signal()
         m.d.comb += data8_ok.eq(spy.end & data_pid & (spy.count == 11) & (wire8 == Cat(b[9], b[10])))
@@ -151,14 +169,14 @@ class SetupHarness(Harness):
         r0, r1, r2 = Signal(16, init=0xFFFF), Signal(16, init=0xFFFF), Signal(16, init=0xFFFF)
         l1, l2 = Signal(8), Signal(8)
         nb = Signal(5)
-        step = crc16_serial_step(m, r0, u.rx_data, "rc16run")
+        step = crc16_step(r0, u.rx_data, "rc16run")
         with m.If(~u.rx_active):
             m.d.usb += [r0.eq(0xFFFF), r1.eq(0xFFFF), r2.eq(0xFFFF), nb.eq(0)]
         with m.Elif(u.rx_valid & (spy.count != 0)):
             m.d.usb += [r2.eq(r1), r1.eq(r0), r0.eq(step), l2.eq(l1), l1.eq(u.rx_data)]
             with m.If(nb != 31):
                 m.d.usb += nb.eq(nb + 1)
-        wire_any = crc16_wire(m, r2, "rc16run_wire")
+        wire_any = crc16_out(r2, "rc16run_wire")
         m.d.comb += data_any_ok.eq(spy.end & data_pid & (nb >= 2) & (wire_any == Cat(l2, l1)))
 
         must, may = Signal(name="must"), Signal(name="may")
